@@ -35,7 +35,9 @@ RULE = (
     "subclass of it - OrderedDict / a dict subclass where the declared type is dict itself) and a random half of the negative variants: extra key in a random context, extra element in a random list, "
     "missing key (without defaults / with a default under the right type plus decoys under other types / with decoys only), "
     "missing last list element (same three), target reuse by an inserted bool/nbits/declare_list/computed_value/subcontext "
-    "(Serialiser and Deserialiser), unclosed subcontext / bounded block. distinct = distinct program; programs with fewer than "
+    "(Serialiser and Deserialiser), unclosed subcontext / bounded block, a non-list value (falsy: 0 False None b'' bitarray() '' / "
+    "truthy: 1 b'x' dict str bitarray('1') 7) supplied for a declared list target that is used zero times / has defaults for its "
+    "elements / is used normally. distinct = distinct program; programs with fewer than "
     "3 operations are trivial."
 )
 ASSUMPTIONS = [
@@ -49,6 +51,8 @@ ASSUMPTIONS = [
     "after set_context_type(T) the current context has exactly type T (type(x) is T), also when the supplied dictionary was an "
     "instance of a subclass of T (the method's documentation: a context 'of a different type' is passed to T's constructor)",
     "after ReusedTargetError only the value stored by the first use is inspected (the rest of the state is unspecified)",
+    "a non-list value supplied for a declared list target is a provided value that cannot be used: serialisation must raise "
+    "(ListTargetContainsNonListError is documented; any of the serdes target errors is accepted, success never)",
     "when both a subcontext and a bounded block are left open either Unclosed* error is accepted",
     "the Monitored* classes are exercised as SerDes implementations; their callbacks are counted, not judged",
     "tree consistency is observed through public attributes only: walking serdes.context along the targets entered so far must "
@@ -63,7 +67,7 @@ def plan(tier, seed):
     if tier == "quick":
         nsh, programs = 16, 48000
     else:
-        nsh, programs = 64, 2400000
+        nsh, programs = 64, 1200000
     return [{"shard": s, "nshards": nsh, "programs": programs // nsh} for s in range(nsh)]
 
 
@@ -355,6 +359,50 @@ def run_case(case, ctx):
         run = do_ser(R, prog["ops"], m2, types, pretype, None, False, explicit, build_types)
         expect_error(run, E.UnusedTargetError, "extra-list-element", where_of(fr.path))
 
+    # G: a non-list value supplied for a declared list target.  The supplied value
+    # can never be used, so serialisation must fail (ListTargetContainsNonListError
+    # is the documented error) - also when the list is used zero times or when
+    # defaults could stand in for the elements.
+    cands = [(f, t) for f in frames for t in f.lists]
+    if cands and vr.random() < 0.6:
+        zero = [(f, t) for f, t in cands if not any(p[0] == t for p in f.prims) and not SP.node_at(M.expected, f.path)[t]]
+        if zero and vr.random() < 0.45:
+            fr, t = vr.choice(zero)
+        else:
+            deep = [c for c in cands if c[0].path]
+            fr, t = vr.choice(deep) if deep and vr.random() < 0.6 else vr.choice(cands)
+        uses = [p for p in fr.prims if p[0] == t]
+        n_used = len(SP.node_at(M.expected, fr.path)[t])
+        falsy = vr.random() < 0.65
+        if falsy:
+            bad = vr.choice([0, False, None, b"", {"__ba": ""}, ""])
+        else:
+            bad = vr.choice([1, b"x", {"a": 1}, "text", {"__ba": "1"}, 7])
+        m2 = SP.clone(model)
+        SP.node_at(m2, fr.path)[t] = bad
+        dv = None
+        if n_used == 0:
+            usage = "zero-uses"
+        elif uses and len(uses) == n_used and vr.random() < 0.6:
+            usage = "with-defaults"
+            dv = {}
+            for p_ in uses:
+                T = None
+                if p_[5] is not None:
+                    T = types[p_[5]]
+                elif pretyped and fr.first_type is not None:
+                    T = (sub_types or types)[fr.first_type]
+                else:
+                    T = dict
+                elem = SP.node_at(model, fr.path)[t][p_[3]]
+                dv.setdefault(T, {})[t] = SP.build_context(elem, ba=R.bitarray)
+        else:
+            usage = "normal"
+        ctx.count("non_list_value_kind:" + ("falsy:" if falsy else "truthy:") + (type(bad).__name__ if not isinstance(bad, dict) else ("bitarray" if "__ba" in bad else "dict")))
+        run = do_ser(R, prog["ops"], m2, types, pretype, dv, False, explicit, build_types)
+        serdes_errors = (E.ListTargetContainsNonListError, E.UnusedTargetError, E.ReusedTargetError, E.ListTargetExhaustedError)
+        expect_error(run, serdes_errors, "non-list-for-list-%s-%s" % ("falsy" if falsy else "truthy", usage), where_of(fr.path))
+
     def cur_type(fr, tname):
         if tname is not None:
             return types[tname]  # exactly the declared type after set_context_type
@@ -538,7 +586,7 @@ NEG_VARIANTS = [
     "unclosed-bounded-block-deserialiser",
     "unclosed-both-serialiser",
     "unclosed-both-deserialiser",
-] + ["reuse-%s-%s" % (s, h) for s in ("serialiser", "deserialiser") for h in ("bool", "nbits", "declare_list", "computed", "sub")]
+] + ["non-list-for-list-%s-%s" % (f, u) for f in ("falsy", "truthy") for u in ("zero-uses", "with-defaults", "normal")] + ["reuse-%s-%s" % (s, h) for s in ("serialiser", "deserialiser") for h in ("bool", "nbits", "declare_list", "computed", "sub")]
 
 ERROR_CLASSES = [
     "UnusedTargetError",
@@ -547,6 +595,7 @@ ERROR_CLASSES = [
     "ReusedTargetError",
     "UnclosedNestedContextError",
     "UnclosedBoundedBlockError",
+    "ListTargetContainsNonListError",
 ]
 
 OP_STRATA = [
@@ -564,8 +613,8 @@ def floor(agg, tier):
         if c.get(name, 0) < n:
             miss.append("%s = %d < %d" % (name, c.get(name, 0), n))
 
-    need("programs", 40000 if q else 2000000)
-    need("roundtrips_ok", 40000 if q else 2000000)
+    need("programs", 40000 if q else 1000000)
+    need("roundtrips_ok", 40000 if q else 1000000)
     need("roundtrips_pretyped_input", 3000)
     need("roundtrips_subclass_input", 5000)
     for w in ("top", "nested", "list-element"):
